@@ -5,6 +5,7 @@ from vf import Machinery, log
 PROFILE = {
     "C13": dict(universe="lists", quick=dict(MaxArity=3), thorough=dict(MaxArity=4), neg=[]),
     "C16": dict(universe="dicts", quick=dict(MaxArity=2), thorough=dict(MaxArity=3), neg=[("DictCollapse", "dicts")]),
+    "C08": dict(universe="repeat", quick=dict(MaxArity=2), thorough=dict(MaxArity=3), neg=[]),
     "C15": dict(universe="comments", quick=dict(MaxArity=3), thorough=dict(MaxArity=3), neg=[]),
 }
 
@@ -47,7 +48,7 @@ def execute(run, files, repeats=16):
     tpath = os.path.join(run.tla_dir(), "trace%d.ndjson" % (len(run.tlc_runs) - 1))
     prop = run.prop
     mine = [r for r in recs if r["prop"] == prop]
-    run.drift = sum(1 for r in recs if r["prop"] == "DRIFT")
+    run.drift += sum(1 for r in recs if r["prop"] == "DRIFT")
     drift_keys = sorted({r["key"] for r in recs if r["prop"] == "DRIFT"})[:10]
     others = sorted({r["prop"] for r in recs if r["prop"] not in (prop, "DRIFT")})
     firsts = {}
@@ -61,16 +62,16 @@ def execute(run, files, repeats=16):
                 events[n] = json.loads(line)
     os.remove(tpath)
     viols = [dict(prop=prop, key=r["key"], family="render", line=r["line"], event=events.get(r["line"])) for r in firsts.values()]
-    run.traces = st["stats"].get("traces", 0)
-    run.evals = st["stats"].get("events", 0)
-    run.distinct = st["stats"].get("nontrivial_cases", 0)
-    run.rule = ("cases = every state of the MC_Render universe (exported by TLC, executed on the real library); "
+    run.traces += st["stats"].get("traces", 0)
+    run.evals += st["stats"].get("events", 0)
+    run.distinct += st["stats"].get("nontrivial_cases", 0)
+    run.rule += ("cases = every state of the MC_Render universe (exported by TLC, executed on the real library); "
                 "non-trivial = cases with >= 2 items / >= 2 live pairs / a comment in a container, counted distinct")
-    run.samples = st.get("samples", [])
+    run.samples += st.get("samples", [])
     run.exhaustive = True
     run.cov["other_properties_flagged_in_same_traces"] = others
     run.cov["drift_keys"] = drift_keys
-    run.cov["harness_stats"] = st["stats"]
+    run.cov.setdefault("harness_stats", []).append(st["stats"])
     run.assumptions += ["raw bytes are those of a NoFormat File; formatted output and token streams come from go/format, go/scanner, go/parser"]
     return run.finish(viols)
 
